@@ -72,23 +72,30 @@ class Renderer:
         if self.ind_spaces is None:
             raise AnchorError("IND_SPACES constant not found")
         syn = facts.syn
+        # `newline_if_body` is not modelled: it is folded from its source (rules/smalleval.py) with `to_py` handed back to this renderer
         f = syn.one_fn("newline_if_body", mod="generate::ast")
-        from .common import inline_lets
-        m = strip(tail_expr(inline_lets(f["body"])))   # `let body_ind = ind + 1;` before the match is the same helper
-        if m is None or m.get("k") != "match" or src(strip(m["e"])) != "core":
-            raise AnchorError("newline_if_body is no longer a `match core`")
         self.nib_fn = f
-        self.nib = []
-        for a in m["arms"]:
-            alts = pat_alternatives(a["pat"])
-            heads = [alt["p"].split("::")[-1] if alt.get("p") else "_" for alt in alts]
-            fields = {}
-            for alt in alts:
-                if alt.get("k") == "pstruct":
-                    for fname, fp in alt["fields"]:
-                        if fp.get("k") == "pident":
-                            fields[fp["name"]] = fname
-            self.nib.append((heads, a.get("guard"), pm._pieces_of(a["body"], fields, {}), fields))
+        from .smalleval import SmallEval as _SE
+        local_ = {x["name"]: x for x in syn.fns if x["mod"] == f["mod"] and x.get("impl_of") is None and x.get("body") and x["name"] != "to_py"}
+        self._se = _SE(local_fns=local_, consts={"IND_SPACES": self.ind_spaces},
+                       funcs={"to_py": lambda c_, i_: ("text", self.render(c_["__node__"] if isinstance(c_, dict) and "__node__" in c_ else self._unsupported("to_py on a part of the body"), i_))})
+
+    @staticmethod
+    def _unsupported(why):
+        raise Unsupported(why)
+
+    def _to_se(self, node):
+        if isinstance(node, list):
+            return ("list", [self._to_se(x) for x in node])
+        if isinstance(node, dict) and "v" in node:
+            out = {"__struct__": node["v"], "__node__": node}
+            for k_, v_ in node.items():
+                if k_ != "v":
+                    out[k_] = self._to_se(v_)
+            return out
+        if isinstance(node, str):
+            return ("text", node)
+        return node
 
     # ---- helpers modelled from their definitions (shape-checked by R-C02-2) ----
     def indent(self, n):
@@ -106,12 +113,14 @@ class Renderer:
         return s.rstrip()
 
     def newline_if_body(self, child, ind):
-        for heads, guard, pieces, fields in self.nib:
-            if "_" in heads or child["v"] in heads:
-                if guard is not None and not self._test(src(guard), child, {}, fields)[0]:
-                    continue
-                return self._pieces(pieces, child, ind, {"core": child})
-        raise Unsupported("newline_if_body: no arm")
+        from .smalleval import NoEval as _NE
+        try:
+            r = self._se.call(self.nib_fn, [self._to_se(child), ind])
+        except _NE as ex:
+            raise Unsupported(f"newline_if_body: {ex}")
+        if isinstance(r, tuple) and len(r) == 2 and r[0] == "text":
+            return r[1]
+        raise Unsupported("newline_if_body does not yield text")
 
     # ---- evaluation ----
     def _ind(self, expr, ind):
@@ -467,15 +476,23 @@ def _helpers(chk, facts, pm, rd):
         s = src(f["body"]).replace(" ", "")
         ok = len(fa) == 1 and format_sequence(fa[0]) == ["to_py(item,ind)", ", "] and "if(s.len()>2){s.remove((s.len()-2));}" in s and s.endswith("String::from(s.trim_end())}")
         chk.ob("R-C02-2", "comma_delimited", ok, "comma_delimited: items joined by `, `, trailing comma removed" if ok else "comma_delimited changed shape", facts.loc_of(f))
-        # newline_if_body: every arm starts with a newline and prints at ind + 1
+        # newline_if_body, folded over an empty block, a block and a single statement at two depths with `to_py` as a marker: a newline, then
+        # the body one level deeper (a block prints its own indentation; an empty body is `pass`)
+        from .smalleval import SmallEval as _SE2, NoEval as _NE2
+        local2 = {x["name"]: x for x in syn.fns if x["mod"] == rd.nib_fn["mod"] and x.get("impl_of") is None and x.get("body") and x["name"] != "to_py"}
+        ev2 = _SE2(local_fns=local2, consts={"IND_SPACES": rd.ind_spaces}, funcs={"to_py": lambda c_, i_: ("text", f"<{c_.get('__struct__') if isinstance(c_, dict) else '?'}@{i_}>")})
         ok = True
-        for heads, guard, pieces, fields in rd.nib:
-            first = pieces[0] if pieces else None
-            if not (first and first[0] == "lit" and first[1].startswith("\n")):
-                ok = False
-            for p in pieces:
-                if p[0] == "hole" and p[2].get("ind") is not None and p[2]["ind"].replace(" ", "") not in ("(ind+1)", "ind+1"):
-                    ok = False
+        try:
+            for ind_ in (0, 2):
+                pad = " " * (rd.ind_spaces * (ind_ + 1))
+                want_ = {"empty": f"\n{pad}pass", "block": f"\n<Block@{ind_ + 1}>", "leaf": f"\n{pad}<Id@{ind_ + 1}>"}
+                got_ = {"empty": ev2.call(rd.nib_fn, [{"__struct__": "Block", "statements": ("list", [])}, ind_]),
+                        "block": ev2.call(rd.nib_fn, [{"__struct__": "Block", "statements": ("list", [("sym", "s")])}, ind_]),
+                        "leaf": ev2.call(rd.nib_fn, [{"__struct__": "Id", "lit": "x"}, ind_])}
+                ok = ok and all(got_[k_] == ("text", want_[k_]) for k_ in want_)
+            ok = ok and not ev2.uncovered(only={"newline_if_body"})
+        except _NE2:
+            ok = False
         chk.ob("R-C02-2", "newline_if_body", ok, "newline_if_body: a newline, then the body one level deeper" if ok else
                "newline_if_body no longer starts a new line and prints the body at ind + 1", facts.loc_of(rd.nib_fn))
         # every field that holds a statement body is printed through a body hole
@@ -749,16 +766,20 @@ def _parser_requires_one(facts, variant, field):
 def _wrappers(chk, facts, pm, rd):
     syn = facts.syn
     try:
-        from .c01 import _walker_table
+        from .c01 import walker_leaf_table
         loc = None
-        for name, skip_fn in (("append_ret", "skip_return"), ("append_assign", "skip_assign")):
+        # which variants each walker wraps (in `return ..` / `x = ..`) is read off a fold of the walkers over one node of every variant
+        leaf_t = walker_leaf_table(syn)
+        for name, kind_ in (("append_ret", "ret"), ("append_assign", "assign")):
             w = syn.one_fn(name, mod="generate::convert")
             loc = facts.loc_of(w)
-            table, leaf, default = _walker_table(w)
-            skipped = _skip_closure(syn, skip_fn)
             n = 0
             for v in pm.core:
-                if v in table or v in skipped:
+                how = leaf_t.get(v, {}).get(kind_, "unknown variant")
+                if how in ("skip", "recurse"):
+                    continue
+                if how != "wrap":
+                    chk.ob("R-C02-4", f"{name}:{v}", False, f"{name} on Core::{v}: {how} - neither left alone, descended nor wrapped", loc)
                     continue
                 # what the wrapper would wrap: is it an expression?
                 n += 1
